@@ -107,10 +107,9 @@ func main() {
 			failed = true
 		}
 		syncModel := func() (txcache.VerifSnapshotData, bool) {
-			snap, ok := txkit.Quiesce(cache)
-			if !ok {
-				r.Inconclusive("asynchronous sweep did not finish")
-				return snap, false
+			snap, cleared := txkit.Quiesce(cache) // runs the pending sweep synchronously
+			if !cleared {
+				r.Count("obs_sweep_list_not_cleared_after_sweep", 1) // C25's concern; senders that vanish are handled below
 			}
 			for i := range models {
 				if _, here := txkit.SenderView(snap, i); !here {
